@@ -12,14 +12,14 @@ from ..replay import replay_parallel
 
 STEP_KEYS = ("a", "o", "ideal", "kf", "tb", "stale", "frozen", "idealAll", "kfAll")
 SHAPES = ["chain", "diamond", "deponly", "aliases", "tuple", "fallback", "fallback2", "ops", "shared"]
-ACTIONS = ["SetValue", "SetValueRejected", "Read", "MarkForUpdate", "Freeze", "Unfreeze", "SetFunc", "AddDependency",
+ACTIONS = ["SetValue", "SetValueRejected", "Read", "MarkForUpdate", "Freeze", "Unfreeze", "SetFunc", "AddDependency", "AddDependencyPair",
            "AddDependencyUnknown", "ReplaceChild", "RemoveDependency", "TupleSetItem", "Replace"]
 INVARIANTS = ["ReadCorrect", "AtMostOncePerRead", "FrozenKeepsSnap", "FreshIsIdeal", "StaleUpwardClosed",
               "ParentsCoverChildren", "Acyclic"]
 PROPERTIES = ["NoSpuriousRecompute", "RejectLeavesUnchanged"]
 
 
-CORE_OFF = ["rejects", "AddDependency", "ReplaceChild", "RemoveDependency", "TupleSetItem", "Replace"]
+CORE_OFF = ["rejects", "AddDependency", "AddDependencyPair", "ReplaceChild", "RemoveDependency", "TupleSetItem", "Replace"]
 
 
 def cfg(depth, faults=(), mode="mc", shapes=SHAPES, off=()):
